@@ -6,6 +6,8 @@
  *      B exact=<rc>:<same 0|1> larger=<rc>:<same> small1=<rc> smallhalf=<rc> zero=<rc>
  *                                          flatcc_generate_binary_schema_to_buffer into exact-size heap blocks
  *      F <rc> <size | NOFILE> <same 0|1>   flatcc_generate_files with bgen_bfbs=1, file <outdir>/<basename>.bfbs
+ *      X twice=<0|1> c_then_bfbs=<1|0|F|G> bfbs_c_bfbs=<..><..>   the binary schema generated again on the same context, and on a second
+ *                                          context after / around flatcc_generate_files with every C generator: 1 = same bytes
  *      L <prefix value | -> <ok 0|1>       length prefix: present exactly when requested and equal to size - 4
  *      V <verify rc> <error string>        reflection_Schema_verify_as_root on the (un-prefixed) buffer
  *      S objects=<fails>/<n> enums=.. services=.. fields=.. calls=.. values=.. first=<what>
@@ -38,6 +40,51 @@ static uint8_t *read_file(const char *path, size_t *n)
     b = (uint8_t *)malloc(sz ? (size_t)sz : 1);
     if (fread(b, 1, (size_t)sz, fp) != (size_t)sz) { fclose(fp); free(b); return 0; }
     fclose(fp); *n = (size_t)sz; return b;
+}
+
+#include <dirent.h>
+static void clean_dir(const char *dir)
+{
+    DIR *d = opendir(dir); struct dirent *e; char path[1600];
+    if (!d) return;
+    while ((e = readdir(d))) { if (e->d_name[0] == '.') continue; snprintf(path, sizeof(path), "%s/%s", dir, e->d_name); unlink(path); }
+    closedir(d);
+}
+
+/* A second context for the same schema: C output (every generator, sorter included) and the binary schema on ONE context, in
+ * both orders; flatcc.h allows flatcc_generate_binary_schema "instead of generate files, before, or after". Returns a status
+ * string: 1 = bytes identical to the reference, 0 = differ, F = generation failed. */
+static void same_context_sequences(const char *path, const char *incdir, const char *outdir, int qualify, int prefix,
+        const uint8_t *ref, size_t refsize, char *res /* 4 chars + nul */)
+{
+    int order;
+    char cdir[1300], cprefix[1310];
+    snprintf(cdir, sizeof(cdir), "%s/c", outdir); mkdir(cdir, 0700);
+    snprintf(cprefix, sizeof(cprefix), "%s/", cdir);
+    strcpy(res, "????");
+    for (order = 0; order < 2; ++order) {
+        flatcc_options_t o; flatcc_context_t c; void *b1 = 0, *b2 = 0; size_t n1 = 0, n2 = 0; int grc;
+        const char *ip[1];
+        flatcc_init_options(&o);
+        o.cgen_reader = o.cgen_builder = o.cgen_verifier = o.cgen_json_parser = o.cgen_json_printer = 1;
+        o.cgen_common_reader = o.cgen_common_builder = o.cgen_recursive = 1;
+        o.bgen_qualify_names = qualify; o.bgen_length_prefix = prefix;
+        ip[0] = incdir; o.inpaths = ip; o.inpath_count = 1; o.outpath = cprefix;
+        c = flatcc_create_context(&o, path, on_error, 0);
+        if (!c || flatcc_parse_file(c, path)) { res[order * 2] = res[order * 2 + 1] = 'F'; if (c) flatcc_destroy_context(c); continue; }
+        if (order == 1) b1 = flatcc_generate_binary_schema(c, &n1);          /* bfbs, C, bfbs */
+        grc = flatcc_generate_files(c);
+        b2 = flatcc_generate_binary_schema(c, &n2);                           /* C, bfbs */
+        if (order == 0) { res[0] = grc ? 'G' : (b2 ? ((n2 == refsize && !memcmp(b2, ref, refsize)) ? '1' : '0') : 'F'); res[1] = '-'; }
+        else {
+            res[2] = b1 ? ((n1 == refsize && !memcmp(b1, ref, refsize)) ? '1' : '0') : 'F';
+            res[3] = grc ? 'G' : (b2 ? ((n2 == refsize && !memcmp(b2, ref, refsize)) ? '1' : '0') : 'F');
+        }
+        free(b1); free(b2);
+        flatcc_destroy_context(c);
+        clean_dir(cdir);
+    }
+    rmdir(cdir);
 }
 
 static char first[200];
@@ -158,6 +205,15 @@ int main(void)
         if (fb) printf("F %d %zu %d\n", grc, fsize, same); else printf("F %d NOFILE 0\n", grc);
         unlink(fpath);
 
+        {
+            /* the same context again (bfbs twice), and C-then-bfbs / bfbs-C-bfbs on a second context */
+            size_t a2size = 0; char seq[8];
+            uint8_t *a2 = (uint8_t *)flatcc_generate_binary_schema(ctx, &a2size);
+            int twice = a2 && a2size == asize && memcmp(a2, a, asize) == 0;
+            free(a2);
+            same_context_sequences(path, incdir, outdir, qualify, prefix, a, asize, seq);
+            printf("X twice=%d c_then_bfbs=%c bfbs_c_bfbs=%c%c\n", twice, seq[0], seq[2], seq[3]);
+        }
         body = a; bodysize = asize;
         if (prefix) {
             uint32_t pv = 0;
